@@ -45,7 +45,7 @@ static const char *prop_now(void)
 static const char *ctx_now(void) { return (since_clear >= 0 && since_clear <= 3) ? "after-clear" : "map"; }
 
 #define VIOLP(prop, oracle, ...) do { char _k[128]; \
-        snprintf(_k, sizeof _k, "%s/%s/%s/%s", prop, oracle, m_opname(g_run.opkind), g_cur_ctx); \
+        snprintf(_k, sizeof _k, "%s/%s/%s/%s", (mode_g == 16 && g_hs.fired) ? "C16" : prop, oracle, m_opname(g_run.opkind), g_cur_ctx); \
         sim_violation(_k, __VA_ARGS__); } while (0)
 #define VIOL(oracle, ...) VIOLP(prop_now(), oracle, __VA_ARGS__)
 
